@@ -43,8 +43,20 @@ Theorem gen_skeleton_povm : forall c vs x xs e p self idx,
   gen_to_var_from_matrices s c xs p = call_convert_vecs_to_var_3 s c (gen_to_vecs_from_matrices_with_sparsity s c xs) p /\
   gen_Povm_matrices_with_sparsity s self = gen_to_matrices_from_vecs s (attr_composite_system s self) (attr_vecs s self) /\
   gen_Povm_matrix_with_sparsity s self idx =
-    meth_reshape_1 s (meth_dot_1 s (attr_basis_T_sparse s (attr_composite_system s self)) (meth_vec_1 s self idx)) (tuple2 s (attr_dim s self) (attr_dim s self)).
+    meth_reshape_1 s (meth_dot_1 s (attr_basis_T_sparse s (attr_composite_system s self)) (gen_Povm_vec s self idx)) (tuple2 s (attr_dim s self) (attr_dim s self)).
 Proof. intros. repeat split; reflexivity. Qed.
+
+(* index dispatch of Povm.vec (hence of matrix_with_sparsity): int -> _vecs[index]; tuple -> length check (ValueError), then the serial index obtained by
+   indexing  np.array(range(num_outcomes)).reshape(nums_local_outcomes)  successively with the components of the tuple *)
+Theorem gen_skeleton_povm_index : forall self idx,
+  gen_Povm__md_index2serial_index s self idx =
+    list_fold s (fun t i => subscr s t i) idx (meth_reshape_1 s (call_np_array_1 s (call_range_1 s (attr__num_outcomes s self))) (attr_nums_local_outcomes s self)) /\
+  gen_Povm_vec s self idx =
+    ite s (cmp_Eq s (call_type_1 s idx) (builtin_tuple s))
+      (ite s (cmp_NotEq s (call_len_1 s idx) (call_len_1 s (attr_nums_local_outcomes s self))) (raise_ValueError s)
+         (subscr s (attr__vecs s self) (gen_Povm__md_index2serial_index s self idx)))
+      (subscr s (attr__vecs s self) idx).
+Proof. intros. split; reflexivity. Qed.
 
 Theorem gen_skeleton_gate : forall c h ch e v p self,
   gen_to_choi_from_hs_with_sparsity s c h = meth_reshape_1 s (meth_dot_1 s (attr_basis_basisconjugate_T_sparse s c) (meth_flatten_0 s h)) (dim2 c) /\
@@ -112,7 +124,14 @@ End Skeleton.
 Section Inst.
 Context (F : OF) (atol : F).
 Inductive val : Type := VNone | VTok | VErr | VBool (b : bool) | VNat (k : nat) | VF (x : F)
-  | VC (m n : nat) (A : cmat F) | VR (m n : nat) (A : rmat F) | VB2 (m n : nat) (P : nat -> nat -> bool).
+  | VC (m n : nat) (A : cmat F) | VR (m n : nat) (A : rmat F) | VB2 (m n : nat) (P : nat -> nat -> bool)
+  (* index dispatch of Povm: a POVM object is represented by its list of local outcome counts; tuples / shapes are lists of naturals;
+     VView shape base = the sub-array of np.array(range(N)).reshape(..) that remains after some leading indices (row-major: its first entry is base) *)
+  | VObj (nums : list nat) | VList (l : list nat) | VShape (l : list nat) | VRange (n : nat) | VArr1 (n : nat) | VView (shape : list nat) (base : nat)
+  | VVecs | VElem (k : nat) | VTy (k : nat).
+Definition prodn (l : list nat) : nat := fold_right Nat.mul 1%nat l.
+Fixpoint rowmajor (shape idx : list nat) : nat :=
+  match shape, idx with n :: ns, i :: js => (i * prodn ns + rowmajor ns js)%nat | _, _ => 0%nat end.
 Definition s_imag v := match v with VC m n A => VR m n (fun i j => im (A i j)) | VR m n _ => VR m n (fun _ _ => c0 F) | _ => VErr end.
 Definition s_real v := match v with VC m n A => VR m n (fun i j => re (A i j)) | VR m n A => VR m n A | _ => VErr end.
 Definition s_abs v := match v with VR m n A => VR m n (fun i j => kabs (A i j)) | _ => VErr end.
@@ -120,9 +139,23 @@ Definition s_npmax v := match v with VR m n A => VF (maxn m (fun i => maxn n (fu
 Definition s_size v := match v with VC m n _ | VR m n _ => VNat (m * n) | _ => VErr end.
 Definition s_gt a b := match a, b with VNat x, VNat y => VBool (Nat.ltb y x) | _, _ => VErr end.
 Definition s_is a b := match a, b with VNone, VNone => VBool true | _, VNone => VBool false | _, _ => VErr end.
-Definition s_eq a b := match a, b with VBool x, VBool y => VBool (Bool.eqb x y) | _, _ => VErr end.
+Definition s_eq a b := match a, b with VBool x, VBool y => VBool (Bool.eqb x y) | VTy x, VTy y => VBool (Nat.eqb x y) | _, _ => VErr end.
 Definition s_lt a b := match a, b with VR m n A, VF e => VB2 m n (fun i j => kltb (A i j) e) | _, _ => VErr end.
-Definition s_ne a b := match a, b with VR m n A, VNat O => VB2 m n (fun i j => negb (keqb F (A i j) (c0 F))) | _, _ => VErr end.
+Definition s_ne a b := match a, b with VR m n A, VNat O => VB2 m n (fun i j => negb (keqb F (A i j) (c0 F)))
+  | VNat x, VNat y => VBool (negb (Nat.eqb x y)) | _, _ => VErr end.
+Definition s_type v := match v with VList _ => VTy 0 | VNat _ => VTy 1 | _ => VErr end.
+Definition s_len v := match v with VList l | VShape l => VNat (length l) | _ => VErr end.
+Definition s_range v := match v with VNat n => VRange n | _ => VErr end.
+Definition s_nparray v := match v with VRange n => VArr1 n | _ => VErr end.
+Definition s_reshape a sh := match a, sh with VArr1 n, VShape l => if Nat.eqb (prodn l) n then VView l 0 else VErr | _, _ => VErr end.
+Definition s_subscr a i := match a, i with
+  | VView (n :: ns) base, VNat k => if Nat.ltb k n then (match ns with [] => VNat (base + k) | _ => VView ns (base + k * prodn ns) end) else VErr
+  | VVecs, VNat k => VElem k
+  | _, _ => VErr end.
+Definition s_fold (f : val -> val -> val) xs t0 := match xs with VList l => fold_left (fun t i => f t (VNat i)) l t0 | _ => VErr end.
+Definition s_num_outcomes v := match v with VObj nums => VNat (prodn nums) | _ => VErr end.      (* invariant of a product POVM: num_outcomes = product of the local counts *)
+Definition s_nums v := match v with VObj nums => VShape nums | _ => VErr end.
+Definition s_vecs v := match v with VObj _ => VVecs | _ => VErr end.
 Definition s_any v := match v with VB2 m n P => VBool (negb (allb m (fun i => allb n (fun j => negb (P i j))))) | _ => VErr end.
 Definition s_and a b := match a, b with VBool x, VBool y => VBool (x && y) | _, _ => VErr end.
 Definition s_or a b := match a, b with VBool x, VBool y => VBool (x || y) | _, _ => VErr end.
@@ -137,6 +170,8 @@ Definition s_where c x y := match c, x, y with
 Definition S : sym val :=
   {|
      attr__hs := (fun _ => VErr);
+     attr__num_outcomes := s_num_outcomes;
+     attr__vecs := s_vecs;
      attr_basis_T_sparse := (fun _ => VErr);
      attr_basis_basisconjugate_T_sparse := (fun _ => VErr);
      attr_basisconjugate_basis_sparse := (fun _ => VErr);
@@ -146,9 +181,11 @@ Definition S : sym val :=
      attr_eps_proj_physical := (fun _ => VErr);
      attr_hs := (fun _ => VErr);
      attr_imag := s_imag;
+     attr_nums_local_outcomes := s_nums;
      attr_real := s_real;
      attr_vec := (fun _ => VErr);
      attr_vecs := (fun _ => VErr);
+     builtin_tuple := (VTy 0);
      call_Settings_get_atol_0 := (VF atol);
      call_convert_hs_to_var_3 := (fun _ _ _ => VErr);
      call_convert_var_to_hs_3 := (fun _ _ _ => VErr);
@@ -156,18 +193,21 @@ Definition S : sym val :=
      call_convert_var_to_vecs_3 := (fun _ _ _ => VErr);
      call_convert_vec_to_var_3 := (fun _ _ _ => VErr);
      call_convert_vecs_to_var_3 := (fun _ _ _ => VErr);
+     call_len_1 := s_len;
      call_max_2 := s_max;
      call_np_abs_1 := s_abs;
      call_np_any_1 := s_any;
+     call_np_array_1 := s_nparray;
      call_np_max_1 := s_npmax;
      call_np_real_1 := s_real;
      call_np_size_1 := s_size;
      call_np_where_3 := s_where;
+     call_range_1 := s_range;
      call_to_choi_from_hs_2 := (fun _ _ => VErr);
      call_to_choi_from_hs_with_dict_2 := (fun _ _ => VErr);
      call_to_kraus_matrices_from_hs_3 := (fun _ _ _ => VErr);
      call_to_process_matrix_from_hs_2 := (fun _ _ => VErr);
-     call_type_1 := (fun _ => VErr);
+     call_type_1 := s_type;
      cmp_Eq := s_eq;
      cmp_Gt := s_gt;
      cmp_Is := s_is;
@@ -180,13 +220,13 @@ Definition S : sym val :=
      const_int_0 := (VNat 0);
      const_int_2 := (VNat 2);
      ite := s_ite;
+     list_fold := s_fold;
      list_map := (fun _ _ => VErr);
      meth_astype_1 := (fun x _ => x);
      meth_dot_1 := (fun _ _ => VErr);
      meth_flatten_0 := (fun _ => VErr);
-     meth_reshape_1 := (fun _ _ => VErr);
+     meth_reshape_1 := s_reshape;
      meth_toarray_0 := (fun _ => VErr);
-     meth_vec_1 := (fun _ _ => VErr);
      mod_np_float64 := VTok;
      mod_sparse_csc_matrix := VTok;
      mod_sparse_csr_matrix := VTok;
@@ -195,6 +235,7 @@ Definition S : sym val :=
      op_Or := s_or;
      op_Pow := (fun _ _ => VErr);
      raise_ValueError := VErr;
+     subscr := s_subscr;
      tuple2 := (fun _ _ => VErr)
   |}.
 
@@ -240,6 +281,37 @@ Proof. intros m n H eps. rewrite gen_truncate_hs_value. unfold truncate_hs. cbv 
   destruct (allb m (fun i => allb n (fun j => trunc_ok (im_thr eps (hs_size m n H)) (H i j)))); [|reflexivity].
   eexists. split; [reflexivity|]. intros i j _ _. cbv beta. rewrite tmp_re. reflexivity. Qed.
 
+(* ------------------------------------------------------------------ Povm index dispatch: the regenerated code computes the ROW-MAJOR serial index *)
+Lemma fold_view : forall idx shape base, Forall2 lt idx shape -> shape <> [] ->
+  fold_left (fun t i => s_subscr t (VNat i)) idx (VView shape base) = VNat (base + rowmajor shape idx).
+Proof. intros idx shape base H. revert base. induction H as [|i n js ns Hi Hr IH]; intros base Hne; [congruence|].
+  cbn [fold_left s_subscr rowmajor]. apply Nat.ltb_lt in Hi. rewrite Hi. destruct ns as [|n' ns'].
+  - inversion Hr; subst. cbn [fold_left prodn fold_right rowmajor]. f_equal. lia.
+  - rewrite IH by congruence. f_equal. lia. Qed.
+Lemma forall2_len (idx nums : list nat) : Forall2 lt idx nums -> length idx = length nums.
+Proof. intros H. induction H; cbn; congruence. Qed.
+(* tuple index of the right length, every component in range: element number  sum_k x_k * prod_{j>k} n_j  of _vecs *)
+Theorem gen_povm_vec_tuple_row_major : forall nums idx, Forall2 lt idx nums -> nums <> [] ->
+  gen_Povm__md_index2serial_index S (VObj nums) (VList idx) = VNat (rowmajor nums idx) /\
+  gen_Povm_vec S (VObj nums) (VList idx) = VElem (rowmajor nums idx).
+Proof. intros nums idx H Hne.
+  assert (E : gen_Povm__md_index2serial_index S (VObj nums) (VList idx) = VNat (rowmajor nums idx)).
+  { unfold gen_Povm__md_index2serial_index. cbv zeta.
+    cbn [S list_fold subscr meth_reshape_1 call_np_array_1 call_range_1 attr__num_outcomes attr_nums_local_outcomes s_fold s_reshape s_nparray s_range s_num_outcomes s_nums].
+    rewrite Nat.eqb_refl. now rewrite (fold_view idx nums 0 H Hne). }
+  split; [exact E|]. unfold gen_Povm_vec. rewrite E.
+  cbn [S ite cmp_Eq call_type_1 builtin_tuple cmp_NotEq call_len_1 attr_nums_local_outcomes raise_ValueError subscr attr__vecs s_ite s_eq s_type s_ne s_len s_nums s_vecs s_subscr Nat.eqb].
+  rewrite (forall2_len _ _ H), Nat.eqb_refl. reflexivity. Qed.
+(* tuple of the wrong length: ValueError; integer index: _vecs[index] *)
+Theorem gen_povm_vec_other_indices : forall nums,
+  (forall idx, length idx <> length nums -> gen_Povm_vec S (VObj nums) (VList idx) = VErr) /\
+  (forall k, gen_Povm_vec S (VObj nums) (VNat k) = VElem k).
+Proof. intros nums. split.
+  - intros idx Hl. unfold gen_Povm_vec.
+    cbn [S ite cmp_Eq call_type_1 builtin_tuple cmp_NotEq call_len_1 attr_nums_local_outcomes raise_ValueError s_ite s_eq s_type s_ne s_len s_nums Nat.eqb].
+    apply Nat.eqb_neq in Hl. rewrite Hl. reflexivity.
+  - intros k. reflexivity. Qed.
+
 (* eps_truncate_imaginary_part = None: Settings.get_atol() is used for BOTH thresholds *)
 Theorem gen_truncate_hs_default_eps : forall m n (H : cmat F),
   gen_truncate_hs S (VC m n H) VNone (VBool true) = gen_truncate_hs S (VC m n H) (VF atol) (VBool true).
@@ -249,6 +321,7 @@ End Inst.
 Print Assumptions gen_skeleton_truncate.
 Print Assumptions gen_skeleton_state.
 Print Assumptions gen_skeleton_povm.
+Print Assumptions gen_skeleton_povm_index.
 Print Assumptions gen_skeleton_gate.
 Print Assumptions gen_hs_choi_hs.
 Print Assumptions gen_gate_var_round_trip.
@@ -256,3 +329,5 @@ Print Assumptions gen_state_var_round_trip.
 Print Assumptions gen_povm_var_round_trip.
 Print Assumptions gen_truncate_hs_is_model.
 Print Assumptions gen_truncate_hs_default_eps.
+Print Assumptions gen_povm_vec_tuple_row_major.
+Print Assumptions gen_povm_vec_other_indices.
